@@ -242,6 +242,9 @@ func runnerMain() int {
 				per = 5
 			}
 		}
+		if isolated(sb.Scenario) {
+			per = 1
+		}
 		// aim for >= 2 chunks per core on big budgets, but small processes
 		for from := 0; from < n; from += per {
 			k := per
@@ -535,6 +538,10 @@ func selftestMain() int {
 	}
 	bad := 0
 	for _, name := range names {
+		if isolated(name) {
+			fmt.Printf("selftest %s: skipped (one run per process; nats.go's internal goroutines are quiescence-controlled only, its oracles are settled-state predicates)\n", name)
+			continue
+		}
 		hashes := map[int][]string{}
 		var wg sync.WaitGroup
 		var mu sync.Mutex
@@ -697,3 +704,8 @@ func attributeRaces(prop string, ck chunk, runs []*RunResult) (int, []string) {
 	}
 	return third, harness
 }
+
+// isolated reports whether every run of the scenario needs a process of its
+// own. nats.go keeps a global pool of timers; a timer created in one synctest
+// bubble must not be used in another.
+func isolated(scenario string) bool { return scenario == "tierb" }
